@@ -94,11 +94,23 @@ def load_property(pid):
 
 
 def known_findings(pid):
-    path = os.path.join(VERIF, "known_findings.json")
-    if not os.path.exists(path):
-        return []
-    with open(path) as f:
-        return [k for k in json.load(f)["findings"] if k["property"] == pid and k.get("kind") == "known"]
+    """known_findings.json (committed union) plus known_findings.d/*.json (per-family source files);
+    entries: {property, id, kind: known|fixed, what, match: regex on signature+detail+case,
+    optional model_match}.  Never written at run time."""
+    paths = [os.path.join(VERIF, "known_findings.json")]
+    d = os.path.join(VERIF, "known_findings.d")
+    if os.path.isdir(d):
+        paths += [os.path.join(d, n) for n in sorted(os.listdir(d)) if n.endswith(".json")]
+    out, seen = [], set()
+    for path in paths:
+        if not os.path.exists(path):
+            continue
+        with open(path) as f:
+            for k in json.load(f)["findings"]:
+                if k["property"] == pid and k.get("kind") == "known" and k["id"] not in seen:
+                    seen.add(k["id"])
+                    out.append(k)
+    return out
 
 
 # ---------------------------------------------------------------------------------------------
@@ -107,9 +119,13 @@ def run_translators(cfg, log):
     names = cfg.get("translators", [])
     if not names:
         return True, []
-    rc, out = sh([sys.executable, os.path.join(VERIF, "tools", "translate.py"), "--repo", REPO] + names)
-    log.append(out)
-    return rc == 0, names
+    ok = True
+    with Lock("lake"):
+        for n in names:
+            rc, out = sh([sys.executable, os.path.join(VERIF, "tools", "translate_%s.py" % n), "--repo", REPO])
+            log.append(out)
+            ok = ok and rc == 0
+    return ok, names
 
 
 # ---------------------------------------------------------------------------------------------
